@@ -3,7 +3,7 @@
 # set of passing tests with BASELINE.json's stable_pass (own validation of fix: commits; the official
 # command is the single pytest invocation of BASELINE.json).
 # usage: run_suite_parallel.sh <repo-dir> <out-dir>
-R=${1:-/repo}; O=${2:-/tmp/suite}; rm -rf "$O"; mkdir -p "$O"; cd "$R" || exit 2
+T="$(cd "$(dirname "$0")" && pwd)"; R=${1:-/repo}; O=${2:-/tmp/suite}; rm -rf "$O"; mkdir -p "$O"; cd "$R" || exit 2
 unset SCICO_VERIF
 parts=(scico/test/linop scico/test/functional scico/test/optimize scico/test/numpy scico/test/operator scico/test/flax docs)
 rest=$(ls scico/test/test_*.py | tr '\n' ' ')
@@ -14,4 +14,4 @@ done
 ( /venv/bin/python -m pytest -ra -q -p no:cacheprovider --timeout=900 --continue-on-collection-errors --junitxml="$O/rest.xml" $rest > "$O/rest.log" 2>&1; echo "rc=$?" >> "$O/rest.log" ) &
 wait
 for f in "$O"/*.log; do echo "== $f: $(tail -2 "$f" | tr '\n' ' ')"; done
-/venv/bin/python "$(dirname "$0")/compare_baseline.py" "$O"
+/venv/bin/python "$T/compare_baseline.py" "$O"
